@@ -166,6 +166,11 @@ def portOf (cfg : Cfg) (u : Url) : Int :=
 def authority (u : Url) (h : Bytes) : Bytes :=
   h ++ (match u.port with | some v => COLON :: intToDec v | none => [])
 
+/-- `connect_host`: `text_(hostname)` with one leading `[` and trailing `]` removed when both are
+    present (IPv6 literal; the socket layer wants the bare address) -/
+def connectHost (h : Bytes) : Bytes :=
+  if h.head? == some Px.Url.LBR && h.getLast? == some Px.Url.RBR then (h.drop 1).dropLast else h
+
 /-- the `host=` argument of `request.build(...)` -/
 def hostArg (cfg : Cfg) (u : Url) (h : Bytes) : Option Bytes :=
   if cfg.rewriteHost then some (authority u h) else none
@@ -185,10 +190,10 @@ def forward (cfg : Cfg) (connectOk : Bool) (req : Parser) (s : St) : Res :=
       else if !utf8Valid h then ⟨s, true, some .valueError⟩        -- text_(self.choice.hostname)
       else
         let port := portOf cfg u
-        -- initialize_upstream: TcpServerConnection(host, port), `closed = True` until connected
+        -- initialize_upstream(connect_host, port): TcpServerConnection, `closed = True` until connected
         let s := { s with upstream := some { closed := true } }
         -- upstream.connect(): new_socket_connection(addr)
-        let s := { s with connects := s.connects ++ [(h, port)] }
+        let s := { s with connects := s.connects ++ [(connectHost h, port)] }
         if !connectOk then ⟨s, true, some .httpProtocol⟩           -- ConnectionRefusedError -> HttpProtocolException
         else
           let s := { s with upstream := some {} }
